@@ -26,8 +26,8 @@ RULE = ('pools of 4 random pages (1-5 lines, sparse logits, empty and non-empty 
 ASSUMPTIONS = ['the reference result of a page is the one obtained from a freshly constructed instance that processes only that page',
                'transcriptions compared exactly, confidences within 1e-12', 'stub OCR network and toy LM as in C07 / C03']
 N = {'quick': 72, 'thorough': 4000}
-CLASSES = ['beam_nolm', 'lm_nocarry', 'lm_carry', 'lm_carry', 'greedy', 'lm_carry_threshold', 'page_parser', 'lm_carry', 'layout_history', 'lm_carry', 'layout_history', 'beam_nolm']
-REQUIRED = ['pages_in_a_folder_vs_alone', 'pages_under_a_limit_that_others_exceed', 'given_line_pages', 'layout_history_pages', 'layout_pages_without_upright_lines', 'histories', 'page_results_compared', 'pages_after_other_page', 'repeated_pages', 'carry_lines_decoded', 'lines_reprimed_from_last_line', 'confident_lines_skipped',
+CLASSES = ['beam_nolm', 'lm_nocarry', 'lm_carry', 'lm_carry', 'greedy', 'lm_carry_threshold', 'page_parser', 'lm_carry', 'layout_history', 'lm_carry', 'layout_history', 'beam_nolm', 'stage_history']
+REQUIRED = ['stage_history_pages', 'pages_in_a_folder_vs_alone', 'pages_under_a_limit_that_others_exceed', 'given_line_pages', 'layout_history_pages', 'layout_pages_without_upright_lines', 'histories', 'page_results_compared', 'pages_after_other_page', 'repeated_pages', 'carry_lines_decoded', 'lines_reprimed_from_last_line', 'confident_lines_skipped',
             'page_parser_pages', 'process_pairs_compared', 'resume_runs_compared']
 KNOWN_DS = 'adaptive down-sampling factor carried over from the previous page'
 LETTERS = list('abc')
@@ -77,6 +77,9 @@ def gen(rng, i, ctx):
     # (DETECT_STRAIGHT_LINES_IN_REGIONS raises a TypeError in detect_lines_in_region on these inputs on the unchanged tree - not a history effect - and is left off)
     if cls == 'lm_carry_threshold':
         thr = [0.3, 0.9, 0.6][(i // len(CLASSES)) % 3]         # thresholds at which some lines are skipped and others decoded, in a fixed cycle
+    if cls == 'stage_history':
+        return {'cls': cls, 'variant': ['given_lines', 'simple_extractor'][(i // len(CLASSES)) % 2], 'pool_seed': int(rng.integers(0, 1 << 30)),
+                'sequences': [[1, 0], [1, 2, 3], [0, 1, 3, 2], [2, 1, 0, 3, 1]] if (i // len(CLASSES)) % 2 == 0 else [[0, 1], [2, 3, 0, 1], [1, 0, 3], [2, 1]]}
     return {'cls': cls, 'layout_options': opts, 'threshold': thr, 'pool_seed': int(rng.integers(0, 1 << 30)), 'lm_seed': int(rng.integers(0, 1 << 30)), 'k': int(rng.choice([1, 2, 4])),
             'lm_scale': float(rng.choice([0.5, 1.0, 2.0])) if cls != 'lm_carry_threshold' else 2.0, 'sequences': seqs}
 
@@ -129,7 +132,101 @@ def same(a, b):
     return len(a) == len(b) and all(x[0] == y[0] and x[1] == y[1] and ((x[2] is None and y[2] is None) or (x[2] is not None and y[2] is not None and abs(x[2] - y[2]) <= 1e-12)) for x, y in zip(a, b))
 
 
+def check_stage_history(case, mon, ctx):
+    """long-lived cropper / OCR engine / simple line detector behind one PageParser: pages with a line wider than the engine's pixel budget, with a line whose
+    heights are (0, 0), with a single text row vs regular rows, fed in sequences - every page's result is that of a freshly built parser.  The OCR stub's scores
+    depend on the width its batch was padded to (gain 3), so a change in batch composition shows in the transcription."""
+    import torch
+    L = ctx.L
+    variant = case['variant']
+    root = os.path.join(ctx.tmpdir, 'sh')
+    if not os.path.exists(root + '/eng/ocr.json'):
+        os.makedirs(root, exist_ok=True)
+        ctx.stubs.make_ocr_engine_dir(root + '/eng', pipeline.CHARS, H=16, seed=21, blank_bias=1.0, wscale=1.5, width_sensitive=True)
+    d = {'PAGE_PARSER': {'RUN_LAYOUT_PARSER': 'yes' if variant == 'simple_extractor' else 'no', 'RUN_LINE_CROPPER': 'yes', 'RUN_OCR': 'yes', 'RUN_DECODER': 'no'},
+         'LINE_CROPPER': {'INTERP': '2', 'LINE_SCALE': '1', 'LINE_HEIGHT': '16'}, 'OCR': {'OCR_JSON': './eng/ocr.json', 'USE_CPU': 'yes'}}
+    if variant == 'simple_extractor':
+        d['LAYOUT_PARSER_1'] = {'METHOD': 'REGION_WHOLE_PAGE'}
+        d['LAYOUT_PARSER_2'] = {'METHOD': 'LINES_SIMPLE_THRESHOLD', 'ADAPTIVE_THRESHOLD': '21', 'BLOCK_SIZE': '11', 'MINIMUM_LENGTH': '50', 'IGNORED_BORDER_PIXELS': '5'}
+    cfg = configparser.ConfigParser()
+    cfg.read_dict(d)
+    rng = np.random.default_rng(case['pool_seed'])
+    pages = []
+    if variant == 'given_lines':
+        for kind in ('zero_height_first', 'over_long_line', 'ordinary', 'ordinary_wide'):
+            W = 4300 if kind == 'over_long_line' else (1700 if kind == 'ordinary_wide' else 900)
+            img = rng.integers(1, 255, size=(760, W, 3), dtype=np.uint8)
+            lines = []
+            for k in range(int(rng.integers(2, 5))):
+                y = 60.0 + 80 * k
+                x1 = float(rng.integers(300, W - 40)) if not (kind == 'over_long_line' and k == 1) else float(W - 30)
+                lines.append(([[20.0, y], [x1, y + float(rng.integers(-3, 4))]], [float(rng.integers(10, 18)), float(rng.integers(3, 8))]))
+            if kind == 'zero_height_first':
+                lines[0] = (lines[0][0], [0.0, 0.0])
+            if kind == 'over_long_line':
+                lines[1] = (lines[1][0], [7.0, 3.0])           # small script on a wide page: its crop (about 6800 px) exceeds the engine's 3840-px budget
+            if kind in ('ordinary', 'ordinary_wide'):
+                lines += [([[20.0, 60.0 + 80 * (len(lines) + j)], [float(rng.integers(200, 800)), 60.0 + 80 * (len(lines) + j)]], [14.0, 5.0]) for j in range(4)][:max(0, 8 - len(lines))]
+            pages.append((kind, img, lines))
+    else:
+        for kind in ('regular_rows', 'single_row', 'regular_rows_other_spacing', 'single_row'):
+            img = np.full((420, 640, 3), 255, np.uint8)
+            rows = [60] if kind == 'single_row' else list(range(50, 380, 60 if kind == 'regular_rows' else 85))
+            for y in rows:
+                x = 40
+                while x < 560:
+                    wl = int(rng.integers(8, 30))
+                    img[y:y + 16, x:x + wl] = 0
+                    if rng.random() < 0.35:
+                        img[y + 16:y + 24, x:x + wl // 2 + 1] = 0            # a descender: a second, lower edge
+                    x += wl + int(rng.integers(3, 9))
+            pages.append((kind, img, None))
+
+    def fresh():
+        with contextlib.redirect_stdout(io.StringIO()), contextlib.redirect_stderr(io.StringIO()):
+            return ctx.pp.PageParser(cfg, device=torch.device('cpu'), config_path=root)
+
+    def run(parser, p):
+        kind, img, lines = pages[p]
+        pl = L.PageLayout(id='p%d' % p, page_size=img.shape[:2])
+        if lines is not None:
+            from pero_ocr.layout_engines import layout_helpers as hlp
+            reg = L.RegionLayout('r1', np.array([[0.0, 0.0], [img.shape[1], 0.0], [img.shape[1], img.shape[0]], [0.0, img.shape[0]]]))
+            for k, (b, h) in enumerate(lines):
+                b = np.array(b)
+                reg.lines.append(L.TextLine(id='r1-l%03d' % k, baseline=b, heights=list(h), polygon=hlp.baseline_to_textline(b, [max(1.0, h[0]), max(1.0, h[1])])))
+            pl.regions.append(reg)
+        try:
+            with contextlib.redirect_stdout(io.StringIO()):
+                pl = parser.process_page(img.copy(), pl)
+        except Exception as e:
+            return 'EXCEPTION %s: %s' % (type(e).__name__, str(e)[:120])
+        return [(l.id, np.round(np.asarray(l.baseline, dtype=np.float64), 3).tolist(), None if l.crop is None else list(l.crop.shape), l.transcription) for l in pl.lines_iterator()]
+    ref = [run(fresh(), p) for p in range(4)]
+    if any(isinstance(r, str) for r in ref) or not any(ref):
+        mon.inconclusive_because('stage-history leg: a reference run raised or found nothing: %r' % [r if isinstance(r, str) else len(r) for r in ref])
+        return
+    for seq in case['sequences']:
+        parser = fresh()
+        mon.count('histories')
+        for pos, p in enumerate(seq):
+            got = run(parser, p)
+            mon.count('stage_history_pages')
+            mon.count('page_results_compared')
+            if pos > 0:
+                mon.count('pages_after_other_page')
+            if got != ref[p]:
+                first = next((k for k, (x, y) in enumerate(zip(got, ref[p])) if x != y), None) if not isinstance(got, str) else None
+                mon.violation('page-result-independent-of-history', {'configuration': 'PageParser(%s + cropper + OCR whose scores depend on the padded batch width)' % variant,
+                              'history': [pages[q][0] for q in seq[:pos + 1]], 'page': pages[p][0], 'lines_after_history': got if isinstance(got, str) else len(got), 'lines_alone': len(ref[p]),
+                              'first_difference': None if first is None else {'after_history': got[first], 'alone': ref[p][first]}}, mechanism='stage-history:' + variant)
+                break
+    mon.mark_nontrivial()
+
+
 def check(case, mon, ctx):
+    if case['cls'] == 'stage_history':
+        return check_stage_history(case, mon, ctx)
     if case['cls'] == 'page_parser':
         return check_page_parser(case, mon, ctx)
     if case['cls'] == 'layout_history':
